@@ -8,7 +8,14 @@ open TdModel
 
 theorem checkGP_true (g : Int) (p : Nat) (h : checkGP g p = true) : 2 ≤ g ∧ g ≤ 7 := by
   unfold checkGP at h
-  split at h <;> first | omega | simp at h
+  split at h
+  · rename_i g' d rs hf
+    have hg := List.find?_some hf
+    have hm := List.mem_of_find?_eq_some hf
+    simp only [beq_iff_eq] at hg
+    simp only [Facts.C09.gpTable, List.mem_cons, Prod.mk.injEq, List.not_mem_nil, or_false] at hm
+    rcases hm with h1 | h1 | h1 | h1 | h1 | h1 <;> (obtain ⟨h1, _⟩ := h1; subst h1; omega)
+  · simp at h
 
 theorem checkDH_true (isPrime : Nat → Bool) (g : Int) (p : Nat) (h : checkDH isPrime g p = true) :
     bitLen p = Facts.C09.rsaKeyBits ∧ 2 ≤ g ∧ g ≤ 7 ∧ checkGP g p = true ∧
@@ -26,9 +33,9 @@ theorem inRange_true (x lo hi : Nat) (h : inRange x lo hi = true) : lo < x ∧ x
 theorem checkDHParams_true (p g gA gB : Nat) (h : checkDHParams p g gA gB = true) :
     1 < g ∧ g < p - 1 ∧ 1 < gA ∧ gA < p - 1 ∧ 1 < gB ∧ gB < p - 1 ∧
     safetyMin < gA ∧ gA < p - safetyMin ∧ safetyMin < gB ∧ gB < p - safetyMin := by
-  unfold checkDHParams at h
-  simp only [Bool.and_eq_true] at h
-  obtain ⟨⟨⟨⟨h1, h2⟩, h3⟩, h4⟩, h5⟩ := h
+  simp only [checkDHParams, Facts.C09.dhParamChecks, List.all_cons, List.all_nil, dhVal, dhBnd, Bool.and_true,
+    Bool.and_eq_true] at h
+  obtain ⟨h1, h2, h3, h4, h5⟩ := h
   have a1 := inRange_true _ _ _ h1
   have a2 := inRange_true _ _ _ h2
   have a3 := inRange_true _ _ _ h3
